@@ -10,7 +10,8 @@ GrcovModel/Lemmas/Gcov.lean.
 Both fidelity statements are proved at full strength: for every well-formed report / document,
 at byte level for the text form (every record order, every line terminator CR*LF, '+' and leading
 zeros in numbers, names with commas/colons, any other `key:value` line), at value-tree level for
-the JSON form (JSON text → value tree and gzip are serde_json's and flate2's, trusted).
+the JSON form; Props/C09JsonBytes.lean (imported here) carries the JSON form down to the bytes of
+the JSON text (`C09_json_fidelity_bytes`; gzip stays flate2's, trusted).
 The maps of a result are observed through `get?` (C09_*_line_count, …_branch_vector, …_function).
 
 JSON documents of later gcov versions. `C09_json_fidelity` is about the key set gcov 9 writes
@@ -53,6 +54,7 @@ the Rust recorded here, and the tie (every harness case runs under `catch_unwind
   `insert` and compare (`b.count > 0`): no index, no arithmetic, no `unwrap`.
 -/
 import GrcovModel.Lemmas.Gcov
+import GrcovModel.Props.C09JsonBytes
 namespace Grcov.Props.C09
 open Grcov AList Grcov.Gcov Grcov.Gcov.Spec
 
